@@ -9,6 +9,7 @@ import (
 	"encoding/json"
 	"flag"
 	"fmt"
+	"go/token"
 	"os"
 	"path/filepath"
 	"runtime/debug"
@@ -122,7 +123,7 @@ func main() {
 			c := newCtx(P, p, *tier)
 			for _, r := range registry[p] {
 				c.rulesRun = append(c.rulesRun, r.name)
-				r.fn(c)
+				runRule(c, r.name, r.fn)
 			}
 			if rc := c.finish(vdir, t0, seed, replayID); rc > code {
 				code = rc
@@ -159,3 +160,26 @@ func dumpFns(P *Prog, pat string, list bool) {
 }
 
 var profStop = func() {}
+
+// runRule runs one rule. A rule that cannot be decided on this tree (an anchor it was written for is gone, fewer
+// instances than confirmed by hand, an internal panic on an unexpected shape) fails as a violated obligation of that
+// rule: undecided never passes, and the other rules of the property still run and report.
+func runRule(c *Ctx, name string, fn ruleFn) {
+	defer func() {
+		if rec := recover(); rec != nil {
+			msg := ""
+			if be, ok := rec.(brokenErr); ok {
+				msg = be.msg
+			} else {
+				msg = fmt.Sprintf("internal panic: %v", rec)
+				if os.Getenv("SLOGCHECK_VERBOSE") != "" {
+					msg += "\n" + string(debug.Stack())
+				}
+			}
+			fmt.Printf("CHECK-BROKEN: %s\n", msg)
+			c.add("violated", name, "-", "the rule is decidable on this tree", token.NoPos,
+				"UNDECIDED (counts as failure): "+msg+". The code this rule was confirmed against has changed shape, so the property is not shown to hold", true)
+		}
+	}()
+	fn(c)
+}
